@@ -14,7 +14,7 @@ from fsmc.ref import decomp, mesh as RM
 PID = "C11"
 RULE = ("states = (tissue, points per interface, sequence of (ne, replace_short_edges) up to depth 2); transitions = one generate_mesh call; "
         "non-trivial = some interface actually lost points or was contracted; classes = (tissue size, k, ne sequence)")
-BOUND = {"quick": "k = 0..40 x ne = 1..12 x 2 settings on a 6-cell base (first call), every second call with the same arguments plus two others; all sub-tissues of a 7-cell base x k in {0,1,5} x ne in {1,2,3,6}",
+BOUND = {"quick": "k = 0..40 x ne = 1..12 x 2 settings on a 6-cell base (first call), every second call with the same arguments plus two others; all sub-tissues of a 7-cell base x k in {0,1,5} x ne in {1,2,3,6}; every first call with ne=4 or replace_short_edges=True repeated with those arguments omitted",
          "thorough": "same on an 11-cell base incl. mixed lengths, all sub-tissues of an 11-cell base, depth 3"}
 ASSUMPTIONS = ["contraction is only defined when the two-point border interfaces are pairwise vertex-disjoint; chained ones (the library refuses them) give no verdict",
                "a contracted pair of vertices is identified with its new midpoint vertex when cycles and interfaces are compared"]
